@@ -152,9 +152,54 @@ func ruleStatusCheck(r *Run) {
 		return
 	}
 	var tests []*ssa.If
+	weight := map[*ssa.If]int{}
 	for _, ins := range allInstrs(fn) {
 		iff, ok := ins.(*ssa.If)
 		if !ok {
+			continue
+		}
+		isStatus0 := func(v ssa.Value) bool {
+			ld, ok := v.(*ssa.UnOp)
+			if !ok || ld.Op != token.MUL {
+				return false
+			}
+			fa, ok := ld.X.(*ssa.FieldAddr)
+			if !ok {
+				return false
+			}
+			f := fieldOf(fa)
+			return f != nil && f.Name() == "StatusCode" && namedOf(fa.X.Type()) == "net/http.Response"
+		}
+		// the range test may live in a predicate of this module that receives the status code:
+		// `if !isSuccessStatus(resp.StatusCode)` — count the comparisons the predicate makes on
+		// that parameter
+		cond := iff.Cond
+		if u, ok := cond.(*ssa.UnOp); ok && u.Op == token.NOT {
+			cond = u.X
+		}
+		if c, ok := cond.(*ssa.Call); ok {
+			if pred := c.Call.StaticCallee(); pred != nil && inModule(pred) && pred.Blocks != nil {
+				for i, a := range c.Call.Args {
+					if !isStatus0(a) || i >= len(pred.Params) {
+						continue
+					}
+					cmp, eq := 0, 0
+					for _, pi := range allInstrs(pred) {
+						if bo, ok := pi.(*ssa.BinOp); ok && (bo.X == ssa.Value(pred.Params[i]) || bo.Y == ssa.Value(pred.Params[i])) {
+							switch bo.Op {
+							case token.LSS, token.GTR, token.LEQ, token.GEQ:
+								cmp++
+							case token.EQL, token.NEQ:
+								eq++
+							}
+						}
+					}
+					if cmp >= 2 || eq >= 1 {
+						tests = append(tests, iff)
+						weight[iff] = 2
+					}
+				}
+			}
 			continue
 		}
 		bo, ok := iff.Cond.(*ssa.BinOp)
@@ -197,6 +242,9 @@ func ruleStatusCheck(r *Run) {
 			for _, s := range t.Block().Succs {
 				if len(s.Preds) == 1 && (s == ret.Block() || s.Dominates(ret.Block())) {
 					nDom++
+					if weight[t] == 2 {
+						nDom++
+					}
 				}
 			}
 		}
